@@ -127,6 +127,9 @@ func successGuardsMonotone(r *Run, rule string) {
 					best = missing
 				}
 			}
+			if !ok && P.guardsMovedIntoNewCallee(P.Fn(n), best, s.guards, pinned) {
+				ok = true
+			}
 			if !ok {
 				weak++
 				r.Viol(rule, fmt.Sprintf("success-weakened:%s#%d", n, i), P.InstrPos(s.ret), n+" can now report success without {"+strings.Join(best, " ; ")+"} — every success return of the pinned tree required at least that (guards that do hold here: {"+strings.Join(s.guards, " ; ")+"})")
